@@ -28,11 +28,11 @@ func (TrueSet) IsTrue() bool {
 }
 
 func (t TrueSet) Less(v Value) bool {
-	switch v.(type) {
-	case TrueSet, Number, Tuple, EmptySet:
-		return false
+	// Like every other value: ordered by Kind first. (True is the only value of its kind.)
+	if t.Kind() != v.Kind() {
+		return t.Kind() < v.Kind()
 	}
-	return true
+	return false
 }
 
 func (t TrueSet) Negate() Value {
